@@ -9,11 +9,19 @@ for every member function, in source order,
   <f>_let_<v>      initialiser of a local whose initialiser is a ?: expression
   <f>_call<k>_<g>  the integer argument(s) of the k-th call of another member (retrieve, append, ...)
   <f>_init_<m>     constructor initialiser of member m
-all as Gallina functions over Z (conditions: bool) whose parameters are the free names of the
-C++ expression, sorted by name (trailing `_` stripped; `buffer_.size()` is `buffer_size`; pointers
-are their addresses).  coq/C10_GenLink.v proves each of them equal to the corresponding test of
-the hand model C10_Model, so editing an operator / operand in the source breaks a proof
-obligation directly.  Overloads are told apart by arity: findCRLF0 / findCRLF1."""
+  toStringPiece_len_cast_bits / append1_size_bits  width (bits) of the signed integer type the length of
+                   toStringPiece() / StringPiece::size() is cast to (review B-3), 0 = no narrowing
+all as Gallina functions (conditions: bool, the rest Z) over ONE record `obs` of NAMED observables
+(review B-2): the free names of the C++ expression -- members (`readerIndex_` -> field `o_readerIndex`,
+`buffer_.size()` -> `o_buffer_size`), observers (`readableBytes()` -> `o_readableBytes`), pointers
+(`peek()`, `beginWrite()`, `start`, `end`: their addresses), `kCheapPrepend`, parameters and locals
+(`len`, `n`, `writable`, `readable`, `reserve`, `initialSize`, ...) -- are read from the field of that
+name, never from a position.  The vocabulary is fixed (VOCAB): a name outside it makes the fact
+untranslated (MISSING when the link lemmas need it).  coq/C10_GenLink.v evaluates each fact on the
+record built from a model buffer by NAME (`buf_obs`, over an arbitrary record for everything that is
+not in scope) and proves it equal to the corresponding test of the hand model C10_Model, so editing an
+operator or replacing an operand by another observable in the source breaks a proof obligation
+directly.  Overloads are told apart by arity: findCRLF0 / findCRLF1."""
 import os, sys, re
 sys.path.insert(0, os.path.dirname(os.path.abspath(__file__)))
 import cxxast
@@ -39,10 +47,30 @@ prepend_assert0 prepend_set0_readerIndex shrink_call0_ensureWritableBytes
 makeSpace_if0 makeSpace_call0_resize makeSpace_assert0 makeSpace_set0_readerIndex makeSpace_set1_writerIndex makeSpace_assert1
 readFd_let_iovcnt readFd_if0 readFd_if1 readFd_set2_writerIndex readFd_set3_writerIndex readFd_call0_append
 readFd_set0_iov_len readFd_set1_iov_len
+toStringPiece_narrow0 toStringPiece_narrow0_arg append1_widen_signed0 narrowing_casts signed_widening_casts
+append1_call0_append append2_char_call0_ensureWritableBytes append2_char_call1_hasWritten append2_void_call0_append
+findEOL0_memchr0_len findEOL1_memchr0_len peekInt64_memcpy0_len peekInt32_memcpy0_len peekInt16_memcpy0_len
+retrieveAsString_string0_len
 """.split()
 
 
+# the named observables of record `obs` (fields o_<name>); fixed, so that the record type is stable
+VOCAB = ["readerIndex", "writerIndex", "buffer_size",                 # private members / buffer_.size()
+         "readableBytes", "writableBytes", "prependableBytes",       # public size observers
+         "peek", "beginWrite",                                        # pointers (addresses)
+         "kCheapPrepend",
+         "len", "initialSize", "reserve", "start", "end", "size",     # parameters (size = str.size())
+         "n", "writable", "readable", "x", "result"]                  # locals
+
+
 class G(cxxast.GExpr):
+    def var(self, name, ty):
+        name = name.rstrip("_")
+        if ty != "Z" or name not in VOCAB:
+            raise cxxast.Untranslatable("name %s (%s) is outside the vocabulary of record obs" % (name, ty))
+        self.vars[name] = ty
+        return "(o_%s o)" % name
+
     def tr(self, node, want):
         n = cxxast.strip(node)
         k = n.get("kind")
@@ -117,15 +145,86 @@ def emit(defs, order, name, node, want, src):
         defs[name] = "(* untranslated %s: %s *)" % (name, str(e).replace("*)", ""))
         order.append(name)
         return
-    vs = sorted(g.vars.items())
-    args = "".join(" (%s : %s)" % (v, t) for v, t in vs)
     src = " ".join(src.split()).replace("*)", "* )").replace("(*", "( *")
-    defs[name] = "(* %s *)\nDefinition %s%s : %s :=\n  %s." % (src, name, args, want, body)
+    reads = ", ".join(sorted(g.vars)) or "nothing"
+    defs[name] = "(* %s   -- reads: %s *)\nDefinition %s (o : obs) : %s :=\n  %s." % (src, reads, name, want, body)
     order.append(name)
 
 
+def record_text():
+    """Record obs, one setter per field, and the reduction tactic the link lemmas use"""
+    out = ["(* the named observables every generated fact reads (review B-2): a fact never sees a position *)",
+           "Record obs : Type := mkObs {"]
+    out.append(";\n".join("  o_%s : Z" % v for v in VOCAB))
+    out.append("}.")
+    out.append("")
+    for v in VOCAB:
+        args = " ".join("v" if w == v else "(o_%s o)" % w for w in VOCAB)
+        out.append("Definition set_%s (v : Z) (o : obs) : obs :=\n  mkObs %s." % (v, args))
+    out.append("")
+    out.append("Ltac obs_red := cbv beta iota delta [%s\n  %s]." % (" ".join("o_" + v for v in VOCAB),
+                                                                    " ".join("set_" + v for v in VOCAB)))
+    out.append("")
+    return out
+
+
+WIDTH = {"size_t": 64, "unsigned long": 64, "long": 64, "ssize_t": 64, "int64_t": 64, "uint64_t": 64, "long long": 64,
+         "unsigned long long": 64, "int": 32, "unsigned int": 32, "int32_t": 32, "uint32_t": 32, "short": 16,
+         "unsigned short": 16, "int16_t": 16, "uint16_t": 16, "char": 8, "signed char": 8, "unsigned char": 8,
+         "int8_t": 8, "uint8_t": 8}
+SIGNED = ("long", "ssize_t", "int64_t", "long long", "int", "int32_t", "short", "int16_t", "char", "signed char", "int8_t")
+
+
+def qt(n):
+    return n.get("type", {}).get("qualType", "").replace("const ", "").strip()
+
+
+def cast_facts(fname, body, defs, order, rel):
+    """integer casts the expression translator looks through (cxxast.strip): a cast from a 64-bit type to a
+    narrower one (<f>_narrow<k> := bits of the destination, <f>_narrow<k>_arg := the operand) and a conversion
+    of a signed <= 32-bit value to a 64-bit unsigned type (<f>_widen_signed<k> := bits of the source)."""
+    kn = kw = 0
+    seen = set()
+    for n in cxxast.walk(body):
+        if n.get("kind") not in ("ImplicitCastExpr", "CXXStaticCastExpr", "CStyleCastExpr", "CXXFunctionalCastExpr"):
+            continue
+        if n.get("castKind") != "IntegralCast":
+            continue
+        kids = [c for c in n.get("inner", []) if isinstance(c, dict)]
+        if len(kids) != 1:
+            continue
+        src, dst = qt(kids[0]), qt(n)
+        if src not in WIDTH or dst not in WIDTH:
+            if src != dst:
+                defs["%s_cast_unknown%d" % (fname, kn + kw)] = "(* untranslated cast %s -> %s in %s *)" % (src, dst, fname)
+                order.append("%s_cast_unknown%d" % (fname, kn + kw))
+            continue
+        if isinstance(cxxast.strip(kids[0]), dict) and cxxast.strip(kids[0]).get("kind") in ("IntegerLiteral", "CharacterLiteral", "UnaryExprOrTypeTraitExpr"):
+            continue                                   # a constant: its value is what the facts carry
+        if WIDTH[src] == 64 and WIDTH[dst] < 64:
+            name = "%s_narrow%d" % (fname, kn)
+            kn += 1
+            defs[name] = "(* %s : %s -> %s *)\nDefinition %s : Z := (%d)." % (
+                " ".join(text_of(n, rel).split()).replace("*)", "* )"), src, dst, name, WIDTH[dst])
+            order.append(name)
+            emit(defs, order, name + "_arg", kids[0], "Z", text_of(kids[0], rel))
+        elif WIDTH[dst] == 64 and dst not in SIGNED and WIDTH[src] <= 32 and src in SIGNED:
+            name = "%s_widen_signed%d" % (fname, kw)
+            kw += 1
+            defs[name] = "(* %s : %s -> %s *)\nDefinition %s : Z := (%d)." % (
+                " ".join(text_of(kids[0], rel).split()).replace("*)", "* )"), src, dst, name, WIDTH[src])
+            order.append(name)
+
+
+FREE_LEN_CALLS = {"memchr": 2, "memcpy": 2}      # free function -> index of its length argument
+
+
 def facts_of(fname, fn, defs, order, rel):
-    cnt = {"if": 0, "assert": 0, "set": 0, "call": 0}
+    cnt = {"if": 0, "assert": 0, "set": 0, "call": 0, "free": 0, "ctor": 0}
+    try:
+        cast_facts(fname, cxxast.body(fn), defs, order, rel)
+    except cxxast.Untranslatable:
+        pass
     # constructor initialisers
     for c in fn.get("inner", []):
         if isinstance(c, dict) and c.get("kind") == "CXXCtorInitializer":
@@ -170,6 +269,17 @@ def facts_of(fname, fn, defs, order, rel):
         if k == "VarDecl" and kids and cxxast.strip(kids[-1]).get("kind") == "ConditionalOperator" and not is_assert(cxxast.strip(kids[-1])):
             emit(defs, order, "%s_let_%s" % (fname, n.get("name")), kids[-1], "Z", text_of(n, rel))
             return
+        if k == "CallExpr" and kids:
+            callee = cxxast.strip(kids[0])
+            nm = callee.get("referencedDecl", {}).get("name")
+            if nm in FREE_LEN_CALLS and len(kids) > 1 + FREE_LEN_CALLS[nm]:
+                emit(defs, order, "%s_%s%d_len" % (fname, nm, cnt["free"]), kids[1 + FREE_LEN_CALLS[nm]], "Z", text_of(n, rel))
+                cnt["free"] += 1
+        if k == "CXXConstructExpr" and qt(n) in ("std::string", "string"):
+            args = [c for c in kids if c.get("kind") != "CXXDefaultArgExpr"]
+            if len(args) == 2 and is_int(args[1]):          # string(ptr, len)
+                emit(defs, order, "%s_string%d_len" % (fname, cnt["ctor"]), args[1], "Z", text_of(n, rel))
+                cnt["ctor"] += 1
         if k == "CXXMemberCallExpr":
             callee = cxxast.strip(kids[0])
             args = [c for c in kids[1:] if c.get("kind") != "CXXDefaultArgExpr"]
@@ -191,6 +301,7 @@ def facts_of(fname, fn, defs, order, rel):
 def main():
     out = ["(* GENERATED by lib/gen_C10.py from %s/%s (and the Buffer.h it includes) -- do not edit *)" % (cxxast.REPO, REL),
            "From Coq Require Import ZArith Bool.", "Local Open Scope Z_scope.", ""]
+    out += record_text()
     msgs, defs, order = [], {}, []
     try:
         methods = {}
@@ -201,16 +312,28 @@ def main():
                    any(isinstance(c, dict) and c.get("kind") == "CompoundStmt" for c in n.get("inner", [])):
                     if n.get("isImplicit"):
                         continue
-                    nparm = len([c for c in n.get("inner", []) if isinstance(c, dict) and c.get("kind") == "ParmVarDecl"])
+                    parms = [c for c in n.get("inner", []) if isinstance(c, dict) and c.get("kind") == "ParmVarDecl"]
+                    nparm = len(parms)
                     if (rel == REL) != (n["name"] == "readFd"):
                         continue
-                    methods.setdefault(n["name"], {})[nparm] = (n, rel)
+                    # the const/non-const pair of begin()/beginWrite() has no parameter: one entry is enough;
+                    # overloads of the same arity (append(const char*, size_t) / append(const void*, size_t))
+                    # are told apart by the type of their first parameter
+                    t0 = re.sub(r"[^A-Za-z0-9]+", "_", parms[0].get("type", {}).get("qualType", "").replace("const ", "")).strip("_") if parms else ""
+                    methods.setdefault(n["name"], {}).setdefault(nparm, {})[t0] = (n, rel)
         for name in sorted(methods):
             ov = methods[name]
             for nparm in sorted(ov):
-                # the const/non-const pair of begin()/beginWrite() has the same arity: one entry is enough
-                fname = name if len(ov) == 1 else "%s%d" % (name, nparm)
-                facts_of(fname, ov[nparm][0], defs, order, ov[nparm][1])
+                for t0 in sorted(ov[nparm]):
+                    fname = name if len(ov) == 1 and len(ov[nparm]) == 1 else "%s%d" % (name, nparm)
+                    if len(ov[nparm]) > 1:
+                        fname += "_" + t0
+                    facts_of(fname, ov[nparm][t0][0], defs, order, ov[nparm][t0][1])
+        nn = sum(1 for k in order if re.search(r"_narrow\d+$", k))
+        nw = sum(1 for k in order if "_widen_signed" in k)
+        defs["narrowing_casts"] = "(* number of integer casts from a 64-bit to a narrower type in Buffer.h/.cc *)\nDefinition narrowing_casts : Z := (%d)." % nn
+        defs["signed_widening_casts"] = "(* number of conversions of a signed <= 32-bit value to a 64-bit unsigned type *)\nDefinition signed_widening_casts : Z := (%d)." % nw
+        order += ["narrowing_casts", "signed_widening_casts"]
     except Exception as e:  # noqa
         msgs.append("MISSING everything: %s" % e)
     for nm in order:
